@@ -17,7 +17,7 @@ SHARDS = {"quick": 8, "thorough": 16}
 RULE = ("authentic packets from the independent V2 encoder (frame lengths 0,1,15,16,17,31,32,33,100,255 and random); faults: "
         "every single-bit flip at every bit position and every truncation length (exhaustive per packet), single-byte "
         "substitutions (8 values/position quick, all 255 for 3 packets thorough), random multi-byte corruptions, length-field "
-        "rewrites; each fault class also replayed through LAN.send with the model device sending the corrupted packet (on a V2 connection, and inside an intact V3 envelope on an authenticated V3 connection). Oracle: "
+        "rewrites; each fault class also replayed through LAN.send with the model device sending the corrupted packet (on a V2 connection - as the reply, right behind an authentic reply, or pushed while the connection is idle before the next exchange - and inside an intact V3 envelope on an authenticated V3 connection). Oracle: "
         "_Packet.decode raises ProtocolError (returning the original frame is tolerated and counted; any other result or "
         "exception type is a violation); in half of the cases the authentic packet is decoded first, as on a live connection. Non-trivial: corrupted != authentic, >= 6 bytes, still starts with 5A5A. Distinct by (packet, fault).")
 ASSUMPTIONS = ["fault model does not re-sign (a correctly re-signed packet is a different authentic packet; containment of those is C09)"]
@@ -93,6 +93,15 @@ def check_case(case: dict):
                     conn.resp_counter += 1
                     return ("raw", pkt3)
                 dev.on_data = on_data
+            elif case.get("arrival") == "behind":
+                # the altered packet arrives right behind an authentic reply (own segment, same instant)
+                def on_data2(dev_, conn, fr):
+                    conn.send_stream(pkt, delay=dev_.latency)
+                    conn.send_stream(bad, delay=dev_.latency)
+                    return ("drop",)
+                dev.on_data = on_data2
+            elif case.get("arrival") == "idle":
+                dev.default_action = ("raw", pkt)
             else:
                 dev.default_action = ("raw", bad)
             net.listen("10.0.0.9", 6444, dev)
@@ -100,6 +109,12 @@ def check_case(case: dict):
             try:
                 if v3:
                     await lan.authenticate(tok, key)
+                if case.get("arrival") == "idle" and not v3:
+                    # a clean exchange first; the altered packet is pushed while the connection is idle, then the next exchange
+                    import asyncio
+                    await lan.send(_frame(20), retries=1)
+                    dev.conns[-1].send_stream(bad, delay=0.01)
+                    await asyncio.sleep(0.05)
                 out["frames"] = await lan.send(_frame(20), retries=1)
             except Exception as e:
                 out["exc"] = e
@@ -114,6 +129,8 @@ def check_case(case: dict):
         if e is not None:
             return (f"send/raises/{type(e).__name__}", f"LAN.send raised {e!r} for fault {case['fault']}")
         got = [bytes(f) for f in out["frames"]]
+        if case.get("arrival") in ("behind", "idle") and not v3 and len(bad) > 0:
+            return ("send/altered-packet-ignored", f"an altered packet that arrived {case['arrival']} the authentic traffic was dropped silently: LAN.send returned {[g.hex()[:30] for g in got]} (fault {case['fault']})")
         if got == [frame]:
             return None if case.get("tolerate_original", True) else ("send/original", "returned original")
         return ("send/misdecoded", f"LAN.send returned {[g.hex() for g in got]} for corrupted packet (authentic frame {frame.hex()})")
@@ -143,7 +160,7 @@ def _run_one(ctx, case, pkt_len=None):
     pkt = _packet(case)
     bad = corrupt(pkt, case["fault"])
     nt = bad != pkt and len(bad) >= 6 and bad[:2] == b"\x5a\x5a"
-    ctx.case(hash((case["frame"], case.get("id", 0), repr(case["fault"]), case.get("via", ""))), nt,
+    ctx.case(hash((case["frame"], case.get("id", 0), repr(case["fault"]), case.get("via", ""), case.get("arrival"))), nt,
              cls=case["fault"][0] + ("/send" if case.get("via") else ""))
     ctx.sample(case["fault"][0] + ("/send" if case.get("via") else ""), case)
     return check_case(case)
@@ -221,6 +238,8 @@ def run(ctx) -> None:
             s += 1
             if ctx.mine(s):
                 case = dict(base, fault=f, via="send3" if s % 3 == 0 else "send")
+                if s % 3 and s % 4 in (1, 2):
+                    case["arrival"] = ["behind", "idle"][s % 4 - 1]
                 ctx.check(case, lambda c: _run_one(ctx, c))
     ctx.sweep("fault classes through LAN.send", s, not ctx.quick)
 
@@ -233,7 +252,8 @@ def run(ctx) -> None:
         st.tuples(st.just("multi"), st.lists(st.tuples(st.integers(0, 400), st.integers(1, 255)).map(list), min_size=2, max_size=8)).map(list),
     )
     cases = st.fixed_dictionaries({"frame": hexb(gens.frames_bytes(255)), "id": gens.device_ids(64), "fault": fault, "prime": st.booleans()})
-    send_cases = st.fixed_dictionaries({"frame": hexb(gens.frames_bytes(120)), "id": gens.device_ids(64), "fault": fault, "via": st.sampled_from(["send", "send3"])})
+    send_cases = st.fixed_dictionaries({"frame": hexb(gens.frames_bytes(120)), "id": gens.device_ids(64), "fault": fault, "via": st.sampled_from(["send", "send3"])},
+                                       optional={"arrival": st.sampled_from(["reply", "behind", "idle"])})
 
     def runner(case):
         return _run_one(ctx, case)
